@@ -670,13 +670,10 @@ fn configure_build(
                 let mut imported_build_deps = IndexSet::new();
 
                 for dep in module_build_deps {
-                    imported_build_deps.extend(
-                        module_build_dep_files
-                            .get(&dep.name)
-                            .unwrap()
-                            .iter()
-                            .cloned(),
-                    );
+                    // a build dependency that exports no files has nothing to wait for
+                    if let Some(dep_files) = module_build_dep_files.get(&dep.name) {
+                        imported_build_deps.extend(dep_files.iter().cloned());
+                    }
                 }
                 Some(imported_build_deps)
             } else {
